@@ -180,24 +180,26 @@ func (w *World) findInboxRolesUncached() *inboxRoles {
 	procT := w.Named("actor", "Processer")
 	for i := 0; i < st.NumFields(); i++ {
 		f := st.Field(i)
+		fn := pinnedFieldName(ir.inbox, st, i)
 		if procT != nil && types.Identical(f.Type(), procT) {
-			ir.procField = f.Name()
+			ir.procField = fn
 		}
 		if p, ok := f.Type().(*types.Pointer); ok {
 			if n, ok := p.Elem().(*types.Named); ok && n.Origin().Obj().Name() == "RingBuffer" {
-				ir.rbField = f.Name()
+				ir.rbField = fn
 			}
 		}
 	}
 	// status field = the integer field that is the operand of sync/atomic calls
 	for i := 0; i < st.NumFields(); i++ {
 		f := st.Field(i)
+		fn := pinnedFieldName(ir.inbox, st, i)
 		if b, ok := f.Type().Underlying().(*types.Basic); ok && b.Info()&types.IsInteger != 0 {
-			if ops := w.atomicOpsOn(ir.inbox, f.Name()); len(ops) > 0 {
+			if ops := w.atomicOpsOn(ir.inbox, fn); len(ops) > 0 {
 				if ir.statusField != "" {
-					bad("two atomic integer fields in Inbox: %s and %s", ir.statusField, f.Name())
+					bad("two atomic integer fields in Inbox: %s and %s", ir.statusField, fn)
 				}
-				ir.statusField = f.Name()
+				ir.statusField = fn
 				ir.ops = ops
 			}
 		}
